@@ -53,17 +53,54 @@ def snapshot():
                         out[f"{name}:{v.__name__}.{ck}"] = _h(cv)
                     elif callable(cv) or isinstance(cv, (property, classmethod, staticmethod)):
                         out[f"{name}:{v.__name__}.{ck}"] = "id%x" % id(cv)
+                    elif not isinstance(cv, str):
+                        dg = _obj_digest(cv)
+                        if dg is not None:
+                            out[f"{name}:{v.__name__}.{ck}"] = dg
             elif isinstance(v, type(sys)) or isinstance(v, type):
                 continue                              # imported modules / classes: covered where they are defined
             elif callable(v) and getattr(v, "__module__", None) == name:
                 out[f"{name}:{k}"] = "id%x" % id(v)
             elif hasattr(v, "__dict__") and not type(v).__module__.startswith("logging"):
                 try:
-                    out[f"{name}:{k}"] = _h(sorted((a, repr(b)) for a, b in vars(v).items()))
+                    out[f"{name}:{k}"] = _h(sorted((a, repr(b)) for a, b in vars(v).items())) + (_obj_digest(v) or "")
                 except Exception:  # noqa
                     pass
+            else:
+                # an object of a type we know nothing about (a random generator, a compiled cache, an instance of an
+                # extension type): its state through pickle / __getstate__ / getstate() / get_state()
+                dg = _obj_digest(v)
+                if dg is not None:
+                    out[f"{name}:{k}"] = dg
     out.update(ext_snapshot())
     return out
+
+
+_STATELESS_TYPES = ("typing", "re", "logging", "enum", "types", "abc", "functools", "_thread", "threading")
+
+
+def _obj_digest(v):
+    """state of an object of unknown type, or None when it has none we can read"""
+    import enum
+    import pickle
+    t = type(v)
+    if t.__module__.split(".")[0] in _STATELESS_TYPES or isinstance(v, (enum.Enum, type, type(sys))) or v is None:
+        return None
+    if t.__name__ in ("member_descriptor", "getset_descriptor", "wrapper_descriptor", "method_descriptor", "Attribute"):
+        return None
+    for how in ("pickle", "__getstate__", "getstate", "get_state"):
+        try:
+            if how == "pickle":
+                raw = pickle.dumps(v, protocol=4)
+            else:
+                st = getattr(v, how)()
+                if st is None:
+                    continue
+                raw = pickle.dumps(st, protocol=4)
+            return "st" + hashlib.sha1(raw).hexdigest()[:12]
+        except Exception:  # noqa
+            continue
+    return None
 
 
 def ext_snapshot():
@@ -268,6 +305,10 @@ def step(op, arg):
             return "rejected:" + type(e).__name__
     if op == "api_script":     # arg: JSON list of actions on freshly built documents (see run_script)
         return run_script(json.loads(arg))
+    if op == "kwcall":         # arg: JSON [path, "doc"|"layer", entry point, {option: value}] - a call with NON-default options
+        return kwcall(*json.loads(arg))
+    if op == "xdoc_script":    # arg: JSON [target|"new", source a, source b, [[src doc, layer, dst doc] ...]]
+        return run_xdoc(json.loads(arg))
     if op == "new_doc":        # arg: "mode:w:h:depth" - PSDImage.new with valid and invalid arguments
         mode, w, h, depth = str(arg).split(":")
         psd = PSDImage.new(mode, (int(w), int(h)), depth=int(depth))
@@ -407,6 +448,153 @@ def run_script(actions):
         except Exception as e:  # noqa
             final.append("EXC:" + type(e).__name__)
     return sha(repr((trace, final)).encode("utf-8", "replace")) + ":" + ",".join(t.split(" ")[0] for t in trace)[:160]
+
+
+def _digest_value(r):
+    import numpy as np
+    if r is None:
+        return "None"
+    if isinstance(r, np.ndarray):
+        return "array%s:%s" % (r.shape, sha(np.ascontiguousarray(r).tobytes()))
+    if hasattr(r, "tobytes") and hasattr(r, "mode"):
+        return "image %s %s:%s" % (r.mode, r.size, sha(r.tobytes()))
+    if isinstance(r, (tuple, list)):
+        return "(" + ",".join(_digest_value(x) for x in r) + ")"
+    return repr(r)[:80]
+
+
+def kwcall(path, target, name, kw):
+    from PIL import Image
+    from psd_tools import PSDImage
+    kw = {k: (tuple(v) if isinstance(v, list) else v) for k, v in kw.items()}
+    if name in ("open", "new", "frompil"):
+        if name == "open":
+            psd = PSDImage.open(path, **kw)
+        elif name == "new":
+            psd = PSDImage.new("RGB", (4, 3), **kw)
+        else:
+            psd = PSDImage.frompil(Image.new("RGB", (4, 3), (10, 20, 30)), **kw)
+        b = io.BytesIO()
+        psd.save(b)
+        return "%s -> %s %s" % (name, sha(describe(psd).encode("utf-8", "replace")), sha(b.getvalue()))
+    psd = PSDImage.open(path)
+    obj = psd if target == "doc" else next(iter(psd.descendants()))
+    if name == "save":
+        b = io.BytesIO()
+        obj.save(b, **kw)
+        return "saved %d %s" % (len(b.getvalue()), sha(b.getvalue()))
+    return name + " -> " + _digest_value(getattr(obj, name)(**kw))
+
+
+def _doc_digest(d):
+    import re
+    b = io.BytesIO()
+    d.save(b)
+    blocks = re.sub(r" at 0x[0-9a-fA-F]+", "", repr(d.tagged_blocks))
+    return sha(b.getvalue()) + sha(blocks.encode("utf-8", "replace")) + sha(describe(d).encode("utf-8", "replace"))
+
+
+def _reachable(root, limit=200000):
+    """id -> (access path, type name) of every MUTABLE object reachable from `root` through fields, containers and
+    instance dictionaries"""
+    import enum
+    import attr
+    out, seen = {}, set()
+    stack = [(root, "")]
+    while stack and len(seen) < limit:
+        v, path = stack.pop()
+        if id(v) in seen or v is None or isinstance(v, (str, bytes, int, float, bool, complex, type, enum.Enum, type(sys),
+                                                        frozenset, range)):
+            continue
+        if callable(v) and not hasattr(v, "_items") and not attr.has(type(v)):
+            continue
+        seen.add(id(v))
+        if not isinstance(v, tuple):
+            out[id(v)] = (path, type(v).__name__)
+        kids = []
+        if isinstance(v, dict):
+            kids = [(x, "%s[%r]" % (path, k)) for k, x in list(v.items())]
+        elif isinstance(v, (list, tuple, set)):
+            kids = [(x, "%s[%d]" % (path, i)) for i, x in enumerate(list(v))]
+        else:
+            if attr.has(type(v)):
+                for f in attr.fields(type(v)):
+                    try:
+                        kids.append((getattr(v, f.name), path + "." + f.name))
+                    except Exception:  # noqa
+                        pass
+            elif hasattr(v, "__dict__"):
+                kids = [(x, path + "." + k) for k, x in list(vars(v).items())]
+            if hasattr(v, "_items") and not attr.has(type(v)):
+                kids.append((v._items, path + "._items"))
+        stack.extend(kids)
+    return out
+
+
+def run_xdoc(spec):
+    """Three documents, cross-document moves into one of them.  After every move: (frame law) a document that took no
+    part in the move has the same saved bytes / tagged blocks / structure as before it; (ownership) no mutable object
+    reachable from one document's record is reachable from another's.  A problem travels in the result after `XDOC:`."""
+    from psd_tools import PSDImage
+    tgt, a, b, moves = spec
+    docs = [PSDImage.new("RGB", (32, 32)) if tgt == "new" else PSDImage.open(tgt), PSDImage.open(a), PSDImage.open(b)]
+    trace, problems = [], []
+
+    def pick(doc, which):
+        layers = list(doc.descendants())
+        if not layers:
+            return None
+        if which == "fx":
+            def rank(l):
+                try:
+                    fx = list(l.effects)
+                except Exception:  # noqa
+                    fx = []
+                pat = any(getattr(e, "has_patterns", lambda: False)() for e in fx)
+                return (not pat, not fx, l.kind != "smartobject")
+            return sorted(layers, key=rank)[0]
+        return layers[int(which) % len(layers)]
+
+    def safe_digest(d):
+        try:
+            return _doc_digest(d)
+        except Exception as e:  # noqa
+            return "EXC:" + type(e).__name__
+
+    prev = [safe_digest(d) for d in docs]
+    for mi, (si, which, di) in enumerate(moves):
+        layer = pick(docs[si], which)
+        try:
+            if layer is None:
+                out = "nothing to move"
+            else:
+                layer.move_to_group(docs[di])
+                out = "moved %s" % layer.kind
+        except Exception as e:  # noqa
+            out = "EXC:" + type(e).__name__
+        trace.append(out)
+        cur = [safe_digest(d) for d in docs]
+        for j in range(len(docs)):
+            if j not in (si, di) and cur[j] != prev[j]:
+                problems.append({"kind": "uninvolved-document-changed", "document": j, "move": mi,
+                                 "what": "document %d changed by move %d (a layer of document %d into document %d)" % (j, mi, si, di)})
+        prev = cur
+        # from the document object itself: its record AND its layer objects with whatever they cache
+        reach = [_reachable(d) for d in docs]
+        for i in range(len(docs)):
+            for j in range(i + 1, len(docs)):
+                common = set(reach[i]) & set(reach[j])
+                if common:
+                    c = min(common, key=lambda x: (len(reach[i][x][0]), reach[i][x][0]))
+                    problems.append({"kind": "shared-object/" + reach[i][c][1], "documents": [i, j], "move": mi,
+                                     "what": "after move %d documents %d and %d hold the same %s object: %s  /  %s (%d shared)"
+                                             % (mi, i, j, reach[i][c][1], reach[i][c][0], reach[j][c][0], len(common))})
+        if problems:
+            break
+    res = sha(repr((trace, prev)).encode("utf-8", "replace")) + ":" + ",".join(t.split(" ")[0] for t in trace)
+    if problems:
+        res += ":XDOC:" + json.dumps(problems[0], sort_keys=True)
+    return res
 
 
 def classify(paths):
